@@ -23,6 +23,9 @@ package lockdrv
 import (
 	"context"
 	"fmt"
+	gredis "github.com/acquirecloud/golibs/kvs/redis"
+	"github.com/alicebob/miniredis/v2"
+	goredis "github.com/go-redis/redis/v8"
 	"strings"
 	"sync"
 	"sync/atomic"
@@ -138,7 +141,39 @@ func runLeaseOnce(c *Case) *leaseSummary {
 	sum := &leaseSummary{}
 	ttl := time.Duration(f.LeaseMs) * time.Millisecond
 	r := prng.New(c.SSeed, "lockdrv-lease", 0)
-	inner := inmem.New()
+	var inner kvs.Storage = inmem.New()
+	if f.Redis {
+		// the Redis client over an in-process server whose clock is moved forward by the real time that has passed, once
+		// a millisecond (the server keeps the TTL of the lock record, the client sends it)
+		mr, err := miniredis.Run()
+		if err != nil {
+			sum.setup = "miniredis: " + err.Error()
+			return sum
+		}
+		defer mr.Close()
+		stopPump := make(chan struct{})
+		defer close(stopPump)
+		go func() {
+			last := time.Now()
+			for {
+				select {
+				case <-stopPump:
+					return
+				case <-time.After(time.Millisecond):
+				}
+				now := time.Now()
+				mr.FastForward(now.Sub(last))
+				last = now
+			}
+		}()
+		inner = gredis.New(&goredis.Options{Addr: mr.Addr()})
+	}
+	if f.Far {
+		// something unrelated in the process is waiting for a timer that is due in an hour
+		farF := timeout.Call(func() {}, time.Hour)
+		defer farF.Cancel()
+		time.Sleep(time.Duration(2+r.Intn(20)) * time.Millisecond)
+	}
 	var st kvs.Storage = inner
 	var hs *holdStore
 	if f.Scn == "ctxend" {
@@ -578,6 +613,8 @@ func leaseCase(prop string, seed uint64, i int) Case {
 		f.HoldU = r.Range(44, 52) // 2.2 .. 2.6 lease periods after the second acquisition
 	}
 	f.Warm = i%8 >= 4
+	f.Far = i%3 == 1
+	f.Redis = f.Scn == "contend" && i%8 == 4
 	c.Free = f
 	return c
 }
